@@ -16,6 +16,7 @@ import (
 	"github.com/ipld/go-storethehash/store/primary"
 	mhprimary "github.com/ipld/go-storethehash/store/primary/multihash"
 	"github.com/ipld/go-storethehash/store/types"
+	"github.com/ipld/go-storethehash/store/vhook"
 )
 
 /* An append-only log [`recordlist`]s.
@@ -150,6 +151,7 @@ func Open(ctx context.Context, path string, primary primary.PrimaryStorage, inde
 		upgradeFileSize = defaultMaxFileSize
 	}
 	err := upgradeIndex(ctx, path, headerPath, upgradeFileSize)
+	vhook.At("index.open.after-upgrade")
 	if err != nil {
 		return nil, fmt.Errorf("could not upgrade index: %w", err)
 	}
@@ -234,6 +236,7 @@ func Open(ctx context.Context, path string, primary primary.PrimaryStorage, inde
 		return nil, ctx.Err()
 	}
 
+	vhook.At("index.open.before-file")
 	file, err = openFileAppend(indexFileName(path, lastIndexNum))
 	if err != nil {
 		return nil, err
@@ -261,6 +264,7 @@ func Open(ctx context.Context, path string, primary primary.PrimaryStorage, inde
 
 	if len(rmPool) != 0 {
 		idx.nextPool = rmPool
+		vhook.At("index.open.before-rmflush")
 		idx.Flush()
 		idx.curPool = nil
 	}
@@ -365,6 +369,7 @@ func scanIndexFile(ctx context.Context, basePath string, fileNum uint32, buckets
 				log.Errorw("Unexpected EOF scanning index", "file", indexPath)
 				file.Close()
 				// Cut off incomplete data
+				vhook.At("index.scan.before-truncate")
 				e := os.Truncate(indexPath, pos)
 				if e != nil {
 					log.Errorw("Error truncating file", "err", e, "file", indexPath)
@@ -393,6 +398,7 @@ func scanIndexFile(ctx context.Context, basePath string, fileNum uint32, buckets
 				log.Errorw("Unexpected EOF scanning index record", "file", indexPath)
 				file.Close()
 				// Cut off incomplete data
+				vhook.At("index.scan.before-truncate-rec")
 				e := os.Truncate(indexPath, pos-sizePrefixSize)
 				if e != nil {
 					log.Errorw("Error truncating file", "err", e, "file", indexPath)
@@ -703,10 +709,12 @@ func (idx *Index) flushBucket(bucket BucketIndex, newData []byte) (types.Block, 
 			log.Warnw("Creating index file overwrites existing. Check that file size limit is not too small resulting in too many files.",
 				"maxFileSize", idx.maxFileSize, "indexPath", indexPath)
 		}
+		vhook.At("index.flushbucket.roll.before-open")
 		file, err := openFileAppend(indexPath)
 		if err != nil {
 			return types.Block{}, 0, fmt.Errorf("cannot open new index file %s: %w", indexPath, err)
 		}
+		vhook.At("index.flushbucket.roll.before-flush-old")
 		if err = idx.writer.Flush(); err != nil {
 			return types.Block{}, 0, fmt.Errorf("cannot write to index file %s: %w", idx.file.Name(), err)
 		}
@@ -715,6 +723,7 @@ func (idx *Index) flushBucket(bucket BucketIndex, newData []byte) (types.Block, 
 		idx.file = file
 		idx.fileNum = fileNum
 		idx.length = 0
+		vhook.At("index.flushbucket.rolled")
 	}
 
 	// Write new data to disk. The record list is prefixed with the bucket they
@@ -823,6 +832,7 @@ func (idx *Index) Get(key []byte) (types.Block, bool, error) {
 	idx.bucketLk.RLock()
 	cached, indexOffset, fileNum, err := idx.readBucketInfo(bucket)
 	idx.bucketLk.RUnlock()
+	vhook.AtV("index.get.after-unlock", fileNum)
 	if err != nil {
 		return types.Block{}, false, fmt.Errorf("error reading bucket: %w", err)
 	}
@@ -867,6 +877,7 @@ func (idx *Index) Flush() (types.Work, error) {
 	idx.nextPool = make(bucketPool, bucketPoolSize)
 	idx.outstandingWork = 0
 	idx.bucketLk.Unlock()
+	vhook.At("index.flush.swapped")
 
 	blks := make([]bucketBlock, 0, len(idx.curPool))
 	var work types.Work
@@ -878,10 +889,12 @@ func (idx *Index) Flush() (types.Work, error) {
 		blks = append(blks, bucketBlock{bucket, blk})
 		work += newWork
 	}
+	vhook.At("index.flush.before-write")
 	err := idx.writer.Flush()
 	if err != nil {
 		return 0, fmt.Errorf("cannot flush data to index file %s: %w", idx.file.Name(), err)
 	}
+	vhook.At("index.flush.written")
 	idx.bucketLk.Lock()
 	defer idx.bucketLk.Unlock()
 	for _, blk := range blks {
@@ -906,20 +919,24 @@ func (idx *Index) Sync() error {
 func (idx *Index) Close() error {
 	var err error
 	idx.closeOnce.Do(func() {
+		vhook.At("index.close.entry")
 		idx.fileCache.Clear()
 		if idx.gcStop != nil {
 			close(idx.gcStop)
 			<-idx.gcDone
 			idx.gcStop = nil
 		}
+		vhook.At("index.close.gc-stopped")
 		_, err = idx.Flush()
 		if err != nil {
 			idx.file.Close()
 			return
 		}
+		vhook.At("index.close.flushed")
 		if err = idx.file.Close(); err != nil {
 			return
 		}
+		vhook.At("index.close.file-closed")
 		err = idx.saveBucketState()
 	})
 	return err
@@ -929,6 +946,7 @@ func (idx *Index) saveBucketState() error {
 	bucketsFileName := savedBucketsName(idx.basePath)
 	bucketsFileNameTemp := bucketsFileName + ".tmp"
 
+	vhook.At("index.savebuckets.before-create")
 	file, err := os.Create(bucketsFileNameTemp)
 	if err != nil {
 		return err
@@ -944,6 +962,7 @@ func (idx *Index) saveBucketState() error {
 			return err
 		}
 	}
+	vhook.At("index.savebuckets.before-flush")
 	if err = writer.Flush(); err != nil {
 		return err
 	}
@@ -952,6 +971,7 @@ func (idx *Index) saveBucketState() error {
 	}
 
 	// Only create the file after saving all buckets.
+	vhook.At("index.savebuckets.before-rename")
 	return os.Rename(bucketsFileNameTemp, bucketsFileName)
 }
 
@@ -969,6 +989,7 @@ func loadBucketState(ctx context.Context, basePath string, buckets Buckets, maxF
 		if e != nil {
 			log.Error("Error closing saved buckets file", "err", err)
 		}
+		vhook.At("index.loadbuckets.before-remove")
 		if e = os.Remove(bucketsFileName); e != nil {
 			log.Error("Error removing saved buckets file", "err", err)
 		}
@@ -1333,6 +1354,7 @@ func remapIndex(ctx context.Context, mp *mhprimary.MultihashPrimary, buckets Buc
 			continue
 		}
 
+		vhook.At("index.remap.before-copy")
 		err = copyFile(fileName, tmpName)
 		if err != nil {
 			return nil, err
@@ -1376,6 +1398,7 @@ func remapIndex(ctx context.Context, mp *mhprimary.MultihashPrimary, buckets Buc
 				binary.LittleEndian.PutUint64(records[record.Pos:], uint64(offset))
 				recordCount++
 			}
+			vhook.At("index.remap.before-writeat")
 			if _, err = file.WriteAt(data, int64(localPos)); err != nil {
 				return nil, fmt.Errorf("failed to remap primary offset in index file %s: %w", fileName, err)
 			}
@@ -1400,6 +1423,7 @@ func remapIndex(ctx context.Context, mp *mhprimary.MultihashPrimary, buckets Buc
 
 		// Create a ".remapped" file to indicate this file was remapped, and
 		// rename the temp file to the original index file name.
+		vhook.At("index.remap.before-marker")
 		doneFile, err := os.Create(doneName)
 		if err != nil {
 			log.Errorw("Error creating remapped file", "err", err, "file", doneName)
@@ -1408,6 +1432,7 @@ func remapIndex(ctx context.Context, mp *mhprimary.MultihashPrimary, buckets Buc
 			log.Errorw("Error closeing remapped file", "err", err, "file", doneName)
 		}
 
+		vhook.At("index.remap.before-rename")
 		if err = os.Rename(tmpName, fileName); err != nil {
 			return nil, fmt.Errorf("error renaming remapped file %s to %s: %w", tmpName, fileName, err)
 		}
@@ -1417,6 +1442,7 @@ func remapIndex(ctx context.Context, mp *mhprimary.MultihashPrimary, buckets Buc
 	}
 
 	// Update the header to indicate remapping is completed.
+	vhook.At("index.remap.before-header")
 	header.PrimaryFileSize = mp.FileSize()
 	if err = writeHeader(headerPath, header); err != nil {
 		return nil, err
@@ -1425,11 +1451,13 @@ func remapIndex(ctx context.Context, mp *mhprimary.MultihashPrimary, buckets Buc
 	// Remove the completion marker files.
 	for fileNum := range fileBuckets {
 		doneName := indexFileName(basePath, fileNum) + ".remapped"
+		vhook.At("index.remap.before-marker-remove")
 		if err = os.Remove(doneName); err != nil {
 			log.Errorw("Error removing remapped marker", "file", doneName, "err", err)
 		}
 	}
 
+	vhook.At("index.remap.done")
 	log.Infow("Remapped primary offsets", "fileCount", fileCount, "recordCount", recordCount)
 	return rmPool, nil
 }
@@ -1489,6 +1517,7 @@ func MoveFiles(indexPath, newDir string) error {
 			return err
 		}
 		newPath := filepath.Join(newDir, filepath.Base(fileName))
+		vhook.At("index.movefiles.before-rename-file")
 		if err = os.Rename(fileName, newPath); err != nil {
 			return err
 		}
@@ -1496,6 +1525,7 @@ func MoveFiles(indexPath, newDir string) error {
 
 	headerPath := headerName(indexPath)
 	newPath := filepath.Join(newDir, filepath.Base(headerPath))
+	vhook.At("index.movefiles.before-rename-header")
 	if err = os.Rename(headerPath, newPath); err != nil {
 		return err
 	}
@@ -1504,6 +1534,7 @@ func MoveFiles(indexPath, newDir string) error {
 	_, err = os.Stat(bucketsPath)
 	if !os.IsNotExist(err) {
 		newPath = filepath.Join(newDir, filepath.Base(bucketsPath))
+		vhook.At("index.movefiles.before-rename-buckets")
 		if err = os.Rename(bucketsPath, newPath); err != nil {
 			return err
 		}
